@@ -1069,6 +1069,18 @@ func c11M8(r *Run) {
 		}
 		return false
 	}
+	isClosedTest := func(v ssa.Value) bool {
+		c, ok := v.(*ssa.Call)
+		if !ok {
+			return false
+		}
+		id := callID(&c.Call)
+		if id.pkg != "sync/atomic" || id.name != "Load" || len(c.Call.Args) == 0 {
+			return false
+		}
+		fa, ok := c.Call.Args[0].(*ssa.FieldAddr)
+		return ok && typeName(fa.X.Type()) == "conn"
+	}
 	hasCall := func(b *ssa.BasicBlock, name string) bool {
 		for _, in := range b.Instrs {
 			if c, ok := in.(*ssa.Call); ok && callID(&c.Call).is(cliPath, map[string]string{"roundtrip": "conn", "reconnect": "Client"}[name], name) {
@@ -1100,6 +1112,10 @@ func c11M8(r *Run) {
 				continue
 			}
 			s2 := safe
+			if iff, ok := b.Instrs[len(b.Instrs)-1].(*ssa.If); ok && isClosedTest(iff.Cond) && i == 0 {
+				// the connection was closed by its owner: the exchange refuses it with net.ErrClosed (M4), nothing is reused
+				s2 = true
+			}
 			if iff, ok := b.Instrs[len(b.Instrs)-1].(*ssa.If); ok && isLive(iff.Cond, 0) {
 				// the liveness test was evaluated on this path; either outcome is an informed decision: the
 				// positive edge must lead to reconnect (checked by `safe` staying false until reconnect is met)
